@@ -30,7 +30,8 @@ RULE = ("case = series of 4..60 points x x class x y class (or affine data) x me
         " Round-6 classes: n given next to an explicit grid (documented: ignored)."
         " Round-7 classes: a 'huge' kind - new grids of 66 000..90 000 points (Weaver.interpolate(n) and explicit grids), methods constant / linear / cubic."
         " Round-8 classes: huge SOURCE series (66 000..90 000 samples) looked up at a few hundred points, some inside the gaps in front of sample 2**15 / 2**16 / 50 000 / 60 000; first use of the library from several threads at once."
-        " Round-9 classes: huge source series also of 32 769..65 535 samples.")
+        " Round-9 classes: huge source series also of 32 769..65 535 samples."
+        " Round-10 classes: Weaver.interpolate(n, 'constant') onto more than 2**20 points.")
 REQUIRED_MONITORS = ["threads:interp", "threads:first_use:interp", "threads:first_use_yields_injected", "c13:at_samples", "c13:constant", "c13:linear", "c13:affine", "c13:weaver_grid", "c13:grid_rejected"]
 ASSUMPTIONS = ["x strictly increasing, >= 4 points, new grid sorted (non-decreasing)",
                "extrapolation of linear / cubic / spline is outside the statement and not judged"]
